@@ -14,6 +14,9 @@ Rule family R11 (definite assignment of field attributes) + shape of __eq__/__re
      get_fields() entry is either read with a default, or the name is assigned on every
      path of ``init`` and of every unpack strategy of every field class that can appear
      in get_fields() (Move pseudo-fields, Em, Bkpt and the embed no-op strategy included).
+
+Round 4: a cached tuple of field names is resolved through the class builder; the no-sharing
+rules of C19 / C13 (what init stores is the keyword or a deep copy of the default).
 """
 import ast
 
